@@ -567,7 +567,13 @@ func init() {
 				}
 			})
 			if !r.Expired() {
-				r.Extra["deepest_bound_completed"] = bound
+				// per shard process; summed by the parent: the pass is complete iff every shard completed it
+				k := fmt.Sprintf("shards_that_completed_the_pass_with_%d_deviations_sum", bound)
+				if v, ok := r.Extra[k].(float64); ok {
+					r.Extra[k] = v + 1
+				} else {
+					r.Extra[k] = 1.0
+				}
 			}
 		}
 	})
